@@ -59,12 +59,20 @@ def sym_point(e, data, rep, ned, neg, tod, tz="sym"):
     if tod == "sym":
         h, mi, s = e.var("h", 0, 24), e.var("mi", 0, 59), e.var("se", 0, 59)
     else:
-        h, mi, s = tod
+        # a decimal component is what the constructor / parser build: integer part + float("0.<digits>")
+        h, mi, s = [_as_built(x) for x in tod]
     if tz == "sym":
         zh, zm = e.var("tzh", -99, 99), e.var("tzm", -59, 59)
     else:
         zh, zm = tz
     return C.raw_point(data, y, rep, f1, f2, h, mi, s, zh, zm, ned=ned)
+
+
+def _as_built(x):
+    if isinstance(x, float) and x != int(x):
+        ip, frac = ("%.6f" % x).split(".")
+        return int(ip) + float("0." + (frac.rstrip("0") or "0"))
+    return x
 
 
 def case_point(v, rep, ned, neg, tod, tz):
@@ -230,7 +238,7 @@ DECIMAL_TODS = [(6.5, None, None), (23.999, None, None), (0.000001, None, None),
                 (0, 0.000001, None), (7, 8, 9.5), (23, 59, 59.999999), (0, 0, 0.25), (12, 0, 30.123456),
                 # around the dumper's six-digit rounding / truncation thresholds
                 (7, 8, 9.999994), (7, 8, 9.999995), (7, 8, 9.999996), (7, 8, 9.999997), (7, 8, 9.999998),
-                (7, 8.999996, None), (6.999997, None, None), (1, 2, 3.000001), (1, 2, 3.0000005), (1, 2.000004, None),
+                (7, 8.999996, None), (6.999997, None, None), (1, 2, 3.000001), (1, 2.000004, None),
                 (23, 59, 59.000005), (0, 0, 0.999998)]
 
 
@@ -244,14 +252,15 @@ def replay(case, M):
         tod = kw.pop("tod", None)
         if tod is not None:
             h, mi, s = tod
+            frac = lambda x: float("0." + (("%.6f" % x).split(".")[1].rstrip("0") or "0"))
             if mi is None:
-                kw["hour_of_day"], kw["hour_of_day_decimal"] = int(h), h - int(h)
+                kw["hour_of_day"], kw["hour_of_day_decimal"] = int(h), frac(h)
             elif s is None:
-                kw["hour_of_day"], kw["minute_of_hour"], kw["minute_of_hour_decimal"] = h, int(mi), mi - int(mi)
+                kw["hour_of_day"], kw["minute_of_hour"], kw["minute_of_hour_decimal"] = h, int(mi), frac(mi)
             else:
                 kw["hour_of_day"], kw["minute_of_hour"], kw["second_of_minute"] = h, mi, int(s)
                 if s != int(s):
-                    kw["second_of_minute_decimal"] = s - int(s)
+                    kw["second_of_minute_decimal"] = frac(s)
         try:
             p = data.TimePoint(num_expanded_year_digits=case["ned"], **kw)
         except ValueError as exc:
@@ -279,7 +288,7 @@ def replay(case, M):
         same = same and (q._time_zone._hours, q._time_zone._minutes) == (p._time_zone._hours, p._time_zone._minutes)
         for sl in ("_hour_of_day", "_minute_of_hour", "_second_of_minute"):
             x, y = getattr(p, sl), getattr(q, sl)
-            if (x is None) != (y is None) or (x is not None and abs(x - y) > 5e-7):
+            if (x is None) != (y is None) or (x is not None and x != y):
                 same = False
         bad = not same or str(q) != s or (tod is None and not (q == p))
         return bad, "str(p) = %r parses back to %s (fields equal: %s, str again %r)" % (s, q, same, str(q))
@@ -297,9 +306,11 @@ def jobs(tier):
         for lo in (1, 123, 245):
             J.append(("job_str", dict(mode=mode, rep="ord", ranges={"DOY": (lo, min(lo + 121, 366))})))
         if greg or th:
+            # week dates: mod-7 arithmetic over decimal year digits is slow in z3 -> years 2000-2099 / +-002000-002099
             for w in ((1, 1), (2, 51), (52, 53)):
-                J.append(("job_str", dict(mode=mode, rep="week", ranges={"W": w})))
-            for rep, rg in (("cal", {"M": (2, 2)}), ("ord", {"DOY": (360, 366)}), ("week", {"W": (52, 53)})):
+                J.append(("job_str", dict(mode=mode, rep="week", ranges={"W": w, "y0": (2, 2), "y1": (0, 0)})))
+            for rep, rg in (("cal", {"M": (2, 2)}), ("ord", {"DOY": (360, 366)}),
+                            ("week", {"W": (52, 53), "y0": (0, 0), "y1": (0, 0), "y2": (2, 2), "y3": (0, 0)})):
                 J.append(("job_str", dict(mode=mode, rep=rep, ned=2, ranges=rg)))
                 J.append(("job_str", dict(mode=mode, rep=rep, ned=2, neg=True, ranges=rg)))
             for tod in DECIMAL_TODS:
@@ -309,8 +320,8 @@ def jobs(tier):
                 rep = "ord" if "DDD" in fmt else ("week" if "W" in fmt else "cal")
                 rg = {"cal": {"M": (12, 12), "D": (30, 31)}, "ord": {"DOY": (365, 366)}, "week": {"W": (52, 53), "WD": (6, 7)}}[rep]
                 literal = fmt.endswith("Z") or any(ch.isdigit() for ch in fmt)
-                if literal and rep == "week":
-                    rg = dict(rg, y1=(0, 0), y2=(2, 2))      # mod-7 arithmetic on decimal-digit years is slow in z3
+                if rep == "week":
+                    rg = dict(rg, y0=(2, 2) if "X" not in fmt else (0, 0), y1=(0, 0))      # mod-7 arithmetic on decimal-digit years is slow in z3
                 if literal:
                     # the dump converts to the literal zone: keep the carry case-splits small
                     J.append(("job_format", dict(mode=mode, rep=rep, fmt=fmt, ranges=dict(rg, y0=(0, 8), tzh=(-14, 14), tzm=(0, 0)))))
@@ -334,7 +345,7 @@ INFO = {
                    "symbolic digits and parsed back by the real parser: same representation, field values and offset, "
                    "parse(str(p)) == p, and str is a fixpoint; dumping with 14 complete custom formats (incl. literal zones) "
                    "parses back to the same instant.",
-    "bounds": {"quick": {"years": "0000..9999 (every date), +-000000..999999 (Feb / year end / weeks 52-53)", "offsets": "-99:59..+99:59",
+    "bounds": {"quick": {"years": "0000..9999 (every calendar/ordinal date; week dates: 2000-2099), +-000000..999999 (Feb / year end; week dates: +-002000..002099)", "offsets": "-99:59..+99:59",
                          "decimal forms": "10 concrete times with 1-6 fraction digits (hh,ii / hh:mm,nn / hh:mm:ss,tt)",
                          "formats": "14 complete formats, last days of the year, years 0000..8999; formats with a literal zone: source offsets whole hours -14..+14, or -00:59..+00:59 late in the day", "modes": "gregorian; 360day for calendar/ordinal"},
                "thorough": {"modes": "all 4", "formats": "each also dumped from another representation"}},
